@@ -18,6 +18,16 @@ with the size known by construction for pure renamings/permutations and pure del
 Requested modifications: all shipped single-residue modifications of charmm/amber, the residue presented with
 the modification's atoms; the patched reference is compared by atom names with what block + modification
 declare (expected_patch, independent of _patch_modification) and with the Lean model shared with C19 (`patch`).
+
+Extension round: lean/VermouthModel/C04_Ref.lean models make_reference AROUND the matcher, _get_reference_residue /
+_patch_modification with their guards and the whole pipeline (theorems: lean/VermouthProps/C04_Ref.lean, C04_Patch.lean,
+C04_Pipeline.lean).  RefSpy hooks _get_reference_residue, add_element_attr, nx.relabel_nodes and ISMAGS inside
+make_reference and records, per residue, the reference returned, the graphs before the element guess, the relabelling
+dictionaries, the graphs / node predicate / cache handed to the matcher and the answers it yields; protocol lines
+`getref`, `mkref`, `pipeline` compare the model with those records exactly, `mcismem` checks every recorded answer of
+the real matcher against the Lean reference.  Families ref-* (degenerate references, atoms without element / name,
+refused requests, synthetic modifications) and peptide-* (whole peptides through AnnotateMutMod + RepairGraph listed
+in several atom orders: the result must not depend on the order).
 """
 import copy
 import itertools
@@ -33,8 +43,14 @@ chk.extra['rule'] = ('a case = molecule of 1-3 residues, each a presentation (re
                      'element / atom order permuted / sparse keys / atoms removed / extra atoms attached / mutation or '
                      'modification request) of a block of charmm, amber or gromos (or of its hydrogen-free skeleton); '
                      'non-trivial if the first residue has >= 4 atoms and its presentation differs from the block '
-                     '(renamed, permuted, missing or extra atoms); distinct = distinct protocol line')
-chk.trusted.append('harness/c04.py: presentation generator, spy around make_reference, encoding of node dictionaries '
+                     '(renamed, permuted, missing or extra atoms); distinct = distinct protocol line.  Per molecule one '
+                     'line for repair GIVEN the match plus, per residue, one line for _get_reference_residue and one for '
+                     'make_reference around the matcher (inputs recorded by a spy inside make_reference, real ISMAGS '
+                     'answers included) and one line for the whole pipeline.  Further families: degenerate references of '
+                     'a synthetic force field, atoms without element / name, refused requests, and peptides of 2-4 '
+                     'residues through AnnotateMutMod + RepairGraph listed in several atom orders')
+chk.trusted.append('harness/c04.py: presentation generator, spy around and inside make_reference (hooks on '
+                   '_get_reference_residue, add_element_attr, nx.relabel_nodes, ISMAGS), encoding of node dictionaries '
                    '(atomname/element/PTM_atom split off, values as repr strings, position/graph not sent), oracle')
 chk.lean(['VermouthProps.C04', 'VermouthProps.C04_Ref', 'VermouthProps.C04_Patch', 'VermouthProps.C04_Pipeline'], 'driver_c04')
 
@@ -1413,7 +1429,7 @@ finding_of = {}
 timed_out_blocks = set()
 patch_cases = []  # (cid, protocol line, reference of the real code by atom names)
 lines = []
-t_budget = 780 if chk.thorough else 68
+t_budget = 780 if chk.thorough else 63
 for cid, spec in all_specs:
     if chk.elapsed() > t_budget and cid.startswith('gen'):
         chk.count('skipped_for_time')
